@@ -625,7 +625,7 @@ def iteration_context(cs):
 
 def cas_flow(fn, cas_call):
     """P = "the compare_exchange of this call succeeded" propagated over fn's body (helpers spliced in)."""
-    return result_flow(fn, "compare_exchange", "compare_exchange_weak")
+    return result_flow(fn, "compare_exchange", "compare_exchange_weak", "fetch_update")
 
 
 def result_flow(fn, *callee_suffixes):
